@@ -52,6 +52,7 @@ class State:
     def __init__(self, env=None, conds=None):
         self.env = dict(env or {})
         self.conds = list(conds or [])
+        self.cvals = []         # (canonical value of the condition, polarity), parallel to conds
         self.ret = None
         self.done = False
         self.loopctl = None     # 'break' / 'continue'
@@ -60,6 +61,7 @@ class State:
     def fork(self):
         s = State(self.env, self.conds)
         s.calls = list(self.calls)
+        s.cvals = list(self.cvals)
         return s
 
     def sym(self, key):
@@ -167,9 +169,15 @@ class SymExec:
             if cv is False:
                 return self.stmt(ks[2], st) if len(ks) > 2 else [st]
             ctext = re.sub(r"\s", "", C.text(cond))
+            try:
+                cval = _canon(self.expr(cond, st))
+            except Unsupported:
+                cval = ctext
             a, b = st, st.fork()
             a.conds.append((ctext, True))
             b.conds.append((ctext, False))
+            a.cvals.append((cval, True))
+            b.cvals.append((cval, False))
             out = self.stmt(ks[1], a)
             out += self.stmt(ks[2], b) if len(ks) > 2 else [b]
             return out
@@ -575,6 +583,8 @@ class SymExec:
             return r
         if name in _MATH_FUNCS and not any(isinstance(a, (Ptr, Addr, Vec)) for a in args):
             return self.opaque_call(name, args)
+        if name in _MATH_FUNCS and len(args) == 1 and isinstance(args[0], Vec):
+            return Vec(self.opaque_call(name, [x]) for x in args[0])
         # inline a function defined in the same translation unit
         if self.cf is not None and self.tu is not None and self._depth < self.inline_depth:
             try:
